@@ -4,7 +4,7 @@ from .. import core, real, gen, eidlib
 from ..leandrv import Driver
 
 MODULE = 'Bluebell.Props.C07'
-THEOREMS = ['Bluebell.C07_ensureUnique_fresh', 'Bluebell.C07_unique', 'Bluebell.C07_unique_all', 'Bluebell.C07_presence', 'Bluebell.C07_format', 'Bluebell.C07_cleanNum_no_whitespace', 'Bluebell.C07_counterexample_exempt_keeps_eid', 'Bluebell.C07_tables']
+THEOREMS = ['Bluebell.C07_ensureUnique_fresh', 'Bluebell.C07_unique', 'Bluebell.C07_unique_all', 'Bluebell.C07_presence', 'Bluebell.C07_format', 'Bluebell.C07_cleanNum_no_whitespace', 'Bluebell.C07_whitespace_class_is_python_s', 'Bluebell.C07_cleanNum_no_python_whitespace', 'Bluebell.C07_counterexample_exempt_keeps_eid', 'Bluebell.C07_tables']
 WS = re.compile(r'\s')
 
 
@@ -128,7 +128,25 @@ def run(ctx, info):
                 nsc += 1
                 if len(failures) < 25:
                     failures.append({'kind': 'oracle', 'finding': v[1], 'summary': f'num {chr(cp)!r} (U+{cp:04X}) on <{tag}>: {v[0]}', 'case': {'check': 'tree', 'tree': t, 'prefix': ''}})
-    ctx.oblige('oracle: every single code point of the punctuation/space blocks as a num', 'oracle', nsc == 0, f'{nsc} violations')
+    # every white-space character *inside* a num (between two letters), where the leading/trailing strip does not reach it
+    from lxml import etree as _et
+    for cp in range(0x110000):
+        ch = chr(cp)
+        if not (WS.match(ch) or ch.isspace()):
+            continue
+        try:
+            _et.Element('a').text = ch
+        except ValueError:
+            continue   # not an XML character: cannot occur in a document
+        for num in ('1' + ch + 'bis', 'a' + ch + ch + 'b', '(' + ch + 'x' + ch + ')'):
+            t = ['body', {}, [['section', {}, [['num', {}, [num]], ['paragraph', {}, [['num', {}, [num]]]]]]]]
+            r = eidlib.real_rewrite(t, 'p')
+            v = eid_violation(r['tree'], 'p', parser_output=False) if 'tree' in r else ('raised', None)
+            if v:
+                nsc += 1
+                if len(failures) < 25:
+                    failures.append({'kind': 'oracle', 'finding': v[1], 'summary': f'num {num!r} (white space U+{cp:04X} inside): {v[0]}', 'case': {'check': 'tree', 'tree': t, 'prefix': 'p'}})
+    ctx.oblige('oracle: every single code point of the punctuation/space blocks as a num; every white-space character inside a num', 'oracle', nsc == 0, f'{nsc} violations')
     # ---- parser outputs
     nd = ctx.budget(250, 3000)
     docs = doc_cases(ctx, nd)
